@@ -543,3 +543,56 @@ def render_parse(o):
     if o[0] == "Err":
         return "Err(%s)" % o[1]
     return S.tstr(o[1])[:200]
+
+
+# ---- the string-table model used by the writer-side references (strref) --------------------------------------------
+def check_string_table_model(fx, rep, rule):
+    """watto's StringTable::insert is what `strref(x)` abstracts: "" -> usize::MAX (the sentinel after `as u32`),
+    an already inserted string -> its stored offset (de-duplication: equal offsets <=> equal strings), a new string ->
+    the current length of the byte vector, then LEB128 length + bytes appended and the offset remembered."""
+    p = "watto::string_table::StringTable::insert"
+    if p not in fx.bodies:
+        rep.floor(rule, 0, 1, "watto StringTable::insert body")
+        return
+    rep.fn(p)
+    sy = S.Sym(fx, krates=("watto",))
+    try:
+        res = sy.eval_body(fx.bodies[p])
+    except S.Undecidable as e:
+        rep.undecidable(rule, "%s/string-table/insert/shape" % rule, loc=F.loc(e.node) if isinstance(e.node, dict) else "", construct=e.msg)
+        return
+    slf, s_ = ("in", "self"), ("in", "s")
+    g = ("call", "std::collections::HashMap::get", (mk_field(slf, "strings"), s_))
+    blen = ("call", "std::vec::Vec::len", (mk_field(slf, "bytes"),))
+    good = True
+    seen = set()
+    desc = []
+    for st, (k, v) in res:
+        a = fc.assignment(st.conds)
+        effs = [e for e in st.effects if e[0] == "call"]
+        if a.get(("empty", s_)) is True:
+            seen.add("empty")
+            good = good and v == lit_int(18446744073709551615) and not effs
+        elif a.get(("is", g, "Some")) is True:
+            seen.add("dedupe")
+            good = good and v == mk_payload(g, "Some", "0") and not effs
+        elif any(e[0] == "panic" for e in st.effects):
+            seen.add("unwrap-path")      # discharged by the census (D-infallible-vec-write)
+        else:
+            seen.add("new")
+            names = [e[1].split("::")[-1] for e in effs]
+            ok_eff = names == ["unsigned", "extend", "insert"] and effs[2][2][1] == s_ and effs[2][2][2] == blen
+            good = good and v == blen and ok_eff
+            desc.append(names)
+    rep.check(rule, "%s/string-table/insert" % rule, good and {"empty", "dedupe", "new"} <= seen, loc=F.short_file(fx.bodies[p]["sp"]),
+              found="cases %s; new-string effects %s" % (sorted(seen), desc),
+              expected="\"\" -> usize::MAX; known string -> stored offset; new string -> offset = bytes.len(), append LEB128 length + bytes, remember offset")
+    q = "watto::string_table::StringTable::read"
+    if q in fx.bodies:
+        rep.fn(q)
+        b = fx.bodies[q]
+        raw = [n for n in F.walk(b["body"]) if n.get("k") == "Index" or F.is_call(n, "std::ops::Index::index", "split_at")]
+        gets = [n for n in F.walk(b["body"]) if F.is_call(n, "core::slice::<impl [T]>::get")]
+        rep.check(rule, "%s/string-table/read" % rule, not raw and len(gets) >= 2, loc=F.short_file(b["sp"]),
+                  found="%d raw index operations, %d get(..) calls" % (len(raw), len(gets)),
+                  expected="offset and length are applied with get(..): an unreadable reference is an Err, never a panic", nontrivial=False)
